@@ -109,10 +109,18 @@ def segment(state, chain):
                     fs.env[ENVVAR] = op['value']
                 outs.append({'ok': True})
                 continue
+            if k == 'chdir':
+                fs.cwd = op['dir']
+                outs.append({'ok': True})
+                continue
             if k == 'load_name':
                 target = op['lib']
             elif k == 'load_path':
                 target = op['root'] + '/' + op['lib'] + '/library.yaml'
+                if op.get('rel') == 'lib':       # cwd = the library dir
+                    target = 'library.yaml'
+                elif op.get('rel') == 'root':    # cwd = the data dir
+                    target = op['lib'] + '/library.yaml'
             else:
                 raise ValueError(k)
             from pgradd.GroupAdd.Library import GroupLibrary
@@ -313,11 +321,14 @@ class Run(object):
                         cur_env[ENVVAR] = op['value']
                     self.log.add('setenv', life=li, value=op['value'])
                     continue
+                if op['op'] == 'chdir':
+                    self.log.add('chdir', life=li, dir=op['dir'])
+                    continue
                 self.stats['loads'] += 1
                 self.check_load(op, out, world, cur_env, resolved, li)
                 if op['op'] == 'load_name' and resolved is None and \
-                        ('ok' in out or out.get('roots')):
-                    resolved = cur_env.get(ENVVAR) or bundled_dir()
+                        'ok' in out and out.get('roots'):
+                    resolved = out['roots'][0]
                 self.log.add('load', life=li, op=op,
                              ok='ok' in out, exc=out.get('exc'),
                              digest=(out.get('digest') or '')[:16],
@@ -331,11 +342,27 @@ class Run(object):
         missing_any = any(world.get('missing', {}).values())
         for f in out.get('fault_fired', []):
             self.stats['faults'][f] = self.stats['faults'].get(f, 0) + 1
-        # where should a by-name load read from?
+        # Where may a load read from?  By name: the directory named by the
+        # override at the first successful resolution of this process
+        # lifetime, else the bundled one.  After a successful resolution a
+        # changed override may or may not be honoured (not stated), so both
+        # directories are acceptable then.  A failed resolution resolves
+        # nothing.
+        cur = env.get(ENVVAR) or bundled_dir()
+        cur_valid = cur in world['roots']
         if op['op'] == 'load_name':
-            want = resolved or env.get(ENVVAR) or bundled_dir()
+            if resolved is None:
+                acceptable = [cur] if cur_valid else []
+                may_fail = not cur_valid
+            else:
+                acceptable = [resolved] + ([cur] if cur_valid and
+                                           cur != resolved else [])
+                may_fail = not cur_valid
+            want = acceptable[0] if acceptable else None
             first = resolved is None
         else:
+            acceptable = [op['root']]
+            may_fail = False
             want = op['root']
             first = True
         if 'ok' in out:
@@ -356,17 +383,20 @@ class Run(object):
                                          'faults': out['fault_fired']})
             # the override selects the directory (first resolution of a
             # process); later changes: either behaviour accepted
-            if out.get('roots') and first and out['roots'] != [want]:
+            if len(out.get('roots') or []) != 1 or \
+                    out['roots'][0] not in acceptable:
                 self.viol('resolution', 'wrong-directory',
                           'read-from-another-directory|%s|%s' % (
                               op['op'], 'override-set' if env.get(ENVVAR)
                               else 'override-unset'),
-                          {'lib': lib, 'op': op, 'read_from': out['roots'],
-                           'expected': want})
-            elif out.get('roots') and not first:
+                          {'lib': lib, 'op': op, 'read_from': out.get('roots'),
+                           'acceptable': acceptable})
+            elif not first:
                 self.probe('load_after_env_change_read_' + (
-                    'first-resolved' if out['roots'] == [want] else
+                    'first-resolved' if out['roots'] == [resolved] else
                     'current-env'))
+            if op.get('rel'):
+                self.probe('load_by_relative_path')
             sw = out.get('sweep')
             if sw:
                 self.stats['sweep_evals'] += sw['evaluations']
@@ -379,9 +409,12 @@ class Run(object):
                     self.viol('self-consistency', p['kind'], sig,
                               dict(p, library=lib))
         else:
-            expected_fail = faulty or self.needed_missing(op, world, want)
+            expected_fail = faulty or (want is not None and
+                                       self.needed_missing(op, world, want))
             if expected_fail:
                 self.probe('load_failed_under_copy_fault')
+            elif may_fail:
+                self.probe('load_failed_override_names_no_directory')
             else:
                 self.viol('loads', 'load-failed',
                           'load-failed|%s|%s@%s' % (
@@ -462,20 +495,41 @@ def gen_history(run_seed):
     env = {}
     if not have_bundled or rng.random() < 0.5:
         env[ENVVAR] = relocs[0]
+    if rng.random() < 0.15:
+        env[ENVVAR] = '/sim/no-such-dir'        # wrong from the start
     lives = []
     for _ in range(rng.randrange(1, 4)):
         ops = []
-        for _ in range(rng.randrange(1, 4)):
+        cwd_is_root = False     # every process lifetime starts in /sim/cwd
+        for _ in range(rng.randrange(1, 5)):
             r = rng.random()
             lib = rng.choice(cheap if rng.random() < 0.85 else libs)
-            if r < 0.55:
+            if r < 0.5:
+                if cwd_is_root:
+                    # A name that exists in the current directory is a path
+                    # by the loader's documented rule, so "by name" is only
+                    # asked where no entry of that name is in sight.
+                    ops.append({'op': 'chdir', 'dir': '/sim/cwd'})
+                    cwd_is_root = False
                 ops.append({'op': 'load_name', 'lib': lib})
             elif r < 0.75:
-                ops.append({'op': 'load_path', 'lib': lib,
-                            'root': rng.choice(roots)})
+                root = rng.choice(roots)
+                rel = rng.choice([None, None, 'lib', 'lib', 'root'])
+                if rel == 'lib':
+                    ops.append({'op': 'chdir', 'dir': root + '/' + lib})
+                    cwd_is_root = False
+                elif rel == 'root':
+                    ops.append({'op': 'chdir', 'dir': root})
+                    cwd_is_root = True
+                ops.append({'op': 'load_path', 'lib': lib, 'root': root,
+                            'rel': rel})
             else:
-                # only valid directories, or unset when the bundled one exists
-                choices = list(relocs) + ([None] if have_bundled else [])
+                # a valid directory, a directory that does not exist (the
+                # load by name must then fail, and work again once the
+                # override is corrected), or unset
+                choices = list(relocs) + list(relocs) + ['/sim/no-such-dir']
+                if have_bundled:
+                    choices.append(None)
                 ops.append({'op': 'setenv', 'value': rng.choice(choices)})
         lives.append({'ops': ops})
     return {'id': 'h%d' % run_seed, 'run_seed': run_seed, 'roots': roots,
